@@ -889,6 +889,14 @@ class WebSocketProtocol13(WebSocketProtocol):
             return
         except ValueError:
             gen_log.debug("Malformed WebSocket request received", exc_info=True)
+            if self.stream is None:
+                # The handshake response has not been sent yet (e.g. invalid
+                # extension parameters): refuse the upgrade instead of
+                # aborting a connection we do not own yet.
+                handler.clear()
+                handler.set_status(400)
+                handler.finish("Malformed WebSocket request")
+                return
             self._abort()
             return
 
